@@ -32,8 +32,11 @@ type CaseC03 struct {
 	Chain   int        `json:"chain"`                 // length of the hostile chain (the head's own hostile ancestors)
 	Shared  bool       `json:"shared_opts"`           // the victim opened a wildcard sibling database first, with the same options value
 	Prior   bool       `json:"prior_legit,omitempty"` // with shared_opts: the attacker's entry in the wildcard sibling was accepted by the victim first
-	Restart bool       `json:"restart,omitempty"`     // afterwards the replica restarts and loads its log
-	AC      string     `json:"ac,omitempty"`          // "" = ipfs controller (list in the manifest) | "simple" (bundled in-memory controller, list passed by every opener)
+	// OpenFault (local-write only): the non-writer opens the database for the first time while the k-th block
+	// read of that Open fails (database manifest, access-controller manifest, write list, ...); 0 = no fault
+	OpenFault int    `json:"open_fault,omitempty"`
+	Restart   bool   `json:"restart,omitempty"` // afterwards the replica restarts and loads its log
+	AC        string `json:"ac,omitempty"`      // "" = ipfs controller (list in the manifest) | "simple" (bundled in-memory controller, list passed by every opener)
 }
 
 func genC03(rt *rapid.T) CaseC03 {
@@ -57,7 +60,10 @@ func genC03(rt *rapid.T) CaseC03 {
 	} else {
 		c.Restart = rapid.Bool().Draw(rt, "restart")
 	}
-	if c.List != "default" && rapid.IntRange(0, 3).Draw(rt, "simpleAC") == 0 {
+	if c.Kind == "local-write" && !c.Shared {
+		c.OpenFault = rapid.SampledFrom([]int{0, 0, 1, 2, 3, 4, 5}).Draw(rt, "openFault")
+	}
+	if c.OpenFault == 0 && c.List != "default" && rapid.IntRange(0, 3).Draw(rt, "simpleAC") == 0 {
 		c.AC, c.Shared = "simple", false
 	}
 	c.Hist = genHist(rt, c.Authors, 6)
@@ -78,7 +84,7 @@ func execC03x(c CaseC03, eventsOnly bool) *Outcome {
 		}
 	}
 	world.ResetHooks()
-	opts := hostileOpts{Type: c.Type, Authors: c.Authors, VictimWrites: true, SharedOpts: c.Shared, PriorLegit: c.Shared && c.Prior, ACType: c.AC}
+	opts := hostileOpts{Type: c.Type, Authors: c.Authors, VictimWrites: true, SharedOpts: c.Shared, PriorLegit: c.Shared && c.Prior, ACType: c.AC, LateX: c.Kind == "local-write" && c.OpenFault > 0}
 	authors := c.Authors
 	switch c.List {
 	case "wildcard":
@@ -313,10 +319,57 @@ func localWriteC03(ctx context.Context, env *hostileEnv, c CaseC03, o *Outcome, 
 	cl := env.cl
 	// the non-writer's own replica, replication on, with a topic peer (the victim) so that a publish would be seen
 	px := cl.W.Peers[env.X]
-	_ = cl.Stores[env.X].Close()
-	sx, err := px.DB.Open(ctx, cl.Addr, cl.OpenOpts(&orbitdb.CreateDBOptions{}))
-	if err != nil {
-		return fail("harness: reopen attacker store: %v", err)
+	var sx iface.Store
+	var err error
+	if cl.Stores[env.X] == nil {
+		// first contact with the database, with one block read of the Open failing
+		px.SetGate(true)
+		type res struct {
+			s   iface.Store
+			err error
+		}
+		done := make(chan res, 1)
+		go func() {
+			octx, cancel := context.WithTimeout(ctx, 20*time.Second)
+			defer cancel()
+			s, err := px.DB.Open(octx, cl.Addr, cl.OpenOpts(&orbitdb.CreateDBOptions{}))
+			done <- res{s, err}
+		}()
+		reads := 0
+		var r res
+	loop:
+		for {
+			select {
+			case r = <-done:
+				break loop
+			default:
+			}
+			if len(px.Parked()) > 0 {
+				reads++
+				if reads == c.OpenFault {
+					px.FailParked(0, fmt.Errorf("simulated read failure"))
+				} else {
+					px.ReleaseParked(0)
+				}
+				continue
+			}
+			time.Sleep(200 * time.Microsecond)
+		}
+		px.SetGate(false)
+		o.Labels = append(o.Labels, fmt.Sprintf("open-with-read-%d-failing(of %d)", c.OpenFault, reads))
+		if r.err != nil {
+			// the Open is refused: nothing was opened, nothing can be written (an accepted outcome)
+			o.Labels = append(o.Labels, "open-refused")
+			o.NonTrivial = reads >= c.OpenFault
+			return o
+		}
+		sx = r.s
+	} else {
+		_ = cl.Stores[env.X].Close()
+		sx, err = px.DB.Open(ctx, cl.Addr, cl.OpenOpts(&orbitdb.CreateDBOptions{}))
+		if err != nil {
+			return fail("harness: reopen attacker store: %v", err)
+		}
 	}
 	cl.Stores[env.X] = sx
 	if err := sx.Load(ctx, -1); err != nil {
